@@ -182,7 +182,10 @@ fn outcome(v: &Value) -> Outcome {
 pub fn command_of(st: &Step) -> Option<Cmd> {
     let x0u = || st.x.first().and_then(|v| v.as_u64()).unwrap_or(0);
     Some(match st.a.as_str() {
-        "StartGet" => Cmd::StartGet(st.x.first().and_then(|v| v.as_str()).unwrap_or("bl").to_string()),
+        "StartGet" => {
+            let s = |i: usize, d: &str| st.x.get(i).and_then(|v| v.as_str()).unwrap_or(d).to_string();
+            Cmd::StartGet(s(0, "bl"), s(1, "none"), s(2, "none"))
+        }
         "StartReturn" => Cmd::StartReturn(x0u() as u32),
         "StartTake" => Cmd::StartTake(x0u() as u32),
         "StartResize" => Cmd::StartResize(x0u() as usize),
@@ -222,7 +225,7 @@ pub fn applicable(w: &World, t: usize, cmd: &Cmd) -> bool {
         "m.retain.lock",
     ];
     match (&w.ts[t], cmd) {
-        (TState::Idle, Cmd::StartGet(_) | Cmd::StartResize(_) | Cmd::StartClose | Cmd::StartRetain | Cmd::StartStatus) => {
+        (TState::Idle, Cmd::StartGet(..) | Cmd::StartResize(_) | Cmd::StartClose | Cmd::StartRetain | Cmd::StartStatus) => {
             w.pool().is_some()
         }
         (TState::Idle, Cmd::StartReturn(o) | Cmd::StartTake(o)) => w.held(t).contains(o),
